@@ -75,6 +75,7 @@ def stepCLFees (f : Fees) (op : String) (args : List String) : Fees × String :=
   -- `Props.C19.cl_export_import_eq`); the spread-reward accumulators are part of the genesis and are carried over unchanged
   | "exportimport", [] => let r := stepCLPool f.pool op args; ({ f with pool := r.1 }, r.2)
   | "nextid", [] => let r := stepCLPool f.pool op args; (f, r.2)
+  | "setnextid", [_] => let r := stepCLPool f.pool op args; ({ f with pool := r.1 }, r.2)
   | _, _ => (f, "bad-op")
 
 end OsmoVerif.CLFees
